@@ -268,3 +268,37 @@ Definition exp_groupby_src_a : string := "if size <= 0 { return nil, ERR() }; u 
 
 Definition exp_groupby_src_b : string := "if size <= 0 { return nil, ERR() }; u := reflect.Indirect(reflect.ValueOf(underlying)); group := []reflect.Value{}; switch u.Kind() { case reflect.Array, reflect.Slice: if u.Len() == size { return &groupBy{ group: []reflect.Value{u}, }, nil } groupSize := u.Len() / size if u.Len()%size != 0 { groupSize++ } pos := 0 for pos < u.Len() { e := pos + groupSize if e > u.Len() { e = u.Len() } group = append(group, u.Slice(pos, e)) pos += groupSize } default: return nil, ERR(, underlying) }; g := &groupBy{ group: group, }; return g, nil".
 
+(* C13: the cache and the template life cycle, as model/Cache.v transcribes them *)
+Definition exp_body_plush_Parse : list string := ["if !CacheEnabled { return NewTemplate(input) }";
+   "moot.Lock()";
+   "defer moot.Unlock()";
+   "t, ok := cache[input]";
+   "if ok { return t, nil }";
+   "t, err := NewTemplate(input)";
+   "if err != nil { return t, err }";
+   "cache[input] = t";
+   "return t, nil"].
+
+Definition exp_body_plush_Render : list string := ["t, err := Parse(input)";
+   "if err != nil { return """", err }";
+   "return t.Exec(ctx)"].
+
+Definition exp_body_NewTemplate : list string := ["t := &Template{ Input: input, }";
+   "err := t.Parse()";
+   "if err != nil { return t, err }";
+   "return t, nil"].
+
+Definition exp_body_Template_Parse : list string := ["if t.program != nil { return nil }";
+   "program, err := parser.Parse(t.Input)";
+   "if err != nil { return err }";
+   "t.program = program";
+   "return nil"].
+
+Definition exp_body_Template_Exec : list string := ["err := t.Parse()";
+   "if err != nil { return """", err }";
+   "ev := compiler{ ctx: ctx, program: t.program, }";
+   "s, err := ev.compile()";
+   "return s, err"].
+
+Definition exp_body_Template_Clone : list string := ["t2 := &Template{ Input: t.Input, program: t.program, }";
+   "return t2"].
